@@ -294,3 +294,57 @@ pub fn shape(fields: &[(u32, Node)], h: &mut impl std::hash::Hasher) {
         }
     }
 }
+
+/// Descriptor-guided generator of *structurally valid* protobuf trees with extreme field values:
+/// every field of the message may be absent, present with an edge value, or (if repeated) present many times.
+pub fn extreme_tree(desc: &MessageDescriptor, rng: &mut impl Rng, depth: usize) -> Vec<(u32, Node)> {
+    let mut out = vec![];
+    for f in desc.fields() {
+        let count = if f.is_list() {
+            [0usize, 1, 2, 7][rng.gen_range(0..4)]
+        } else if rng.gen_bool(0.85) {
+            1
+        } else {
+            0
+        };
+        for _ in 0..count {
+            let node = match f.kind() {
+                Kind::Message(d) => {
+                    if depth == 0 {
+                        Node::Msg(vec![])
+                    } else {
+                        Node::Msg(extreme_tree(&d, rng, depth - 1))
+                    }
+                }
+                Kind::String | Kind::Bytes => {
+                    let n = [0usize, 1, 4, 16, 31, 32, 33, 48, 96, 1000][rng.gen_range(0..10)];
+                    Node::Bytes((0..n).map(|_| rng.gen()).collect())
+                }
+                Kind::Fixed64 | Kind::Sfixed64 | Kind::Double => Node::I64(rng.gen()),
+                Kind::Fixed32 | Kind::Sfixed32 | Kind::Float => Node::I32(rng.gen()),
+                Kind::Int32 | Kind::Sint32 | Kind::Uint32 | Kind::Enum(_) | Kind::Bool => Node::Varint(match rng.gen_range(0..8) {
+                    0 => 0,
+                    1 => 1,
+                    2 => u32::MAX as u64,
+                    3 => i32::MAX as u64,
+                    4 => (i32::MIN as i64) as u64,
+                    5 => 1_000_000_000,
+                    6 => 999_999_999,
+                    _ => rng.gen::<u32>() as u64,
+                }),
+                _ => Node::Varint(match rng.gen_range(0..8) {
+                    0 => 0,
+                    1 => 1,
+                    2 => u64::MAX,
+                    3 => i64::MAX as u64,
+                    4 => i64::MIN as u64,
+                    5 => u64::MAX - 1,
+                    6 => 1 << rng.gen_range(0..64),
+                    _ => rng.gen(),
+                }),
+            };
+            out.push((f.number(), node));
+        }
+    }
+    out
+}
